@@ -2,8 +2,12 @@ package vs
 
 import (
 	"fmt"
+	"go/token"
+	"os"
 	"reflect"
 	"sort"
+	"strconv"
+	"strings"
 )
 
 // MapKeys returns the keys of m in an order chosen by the explorer: the
@@ -42,6 +46,12 @@ func MapKeys[K comparable, V any](m map[K]V) []K {
 var PermHook func(n int) []int
 
 func keyLess(a, b any) bool {
+	// syntax nodes: source position is a process-independent order
+	if pa, ok := a.(interface{ Pos() token.Pos }); ok {
+		if pb, ok := b.(interface{ Pos() token.Pos }); ok {
+			return pa.Pos() < pb.Pos()
+		}
+	}
 	va, vb := reflect.ValueOf(a), reflect.ValueOf(b)
 	switch va.Kind() {
 	case reflect.Int, reflect.Int8, reflect.Int16, reflect.Int32, reflect.Int64:
@@ -98,4 +108,85 @@ func Choose(n int, label string) int {
 		o.arms[i] = arm{kind: aSimple, obj: obj, label: fmt.Sprintf("choose%d/%d", i, n)}
 	}
 	return t.do(o).arm
+}
+
+// Outside an execution (the cff generator rebuilt with its map ranges going
+// through MapKeys, property C17) the permutation oracle is driven by the
+// environment, so that a parent process can enumerate iteration orders:
+//
+//	VERIF_PERM_LOG=<file>  append one line "<n>" per MapKeys call (n = number of keys)
+//	VERIF_PERM=<k>:<p>,... at call number k use permutation number p of PermFamily(n)
+func init() {
+	logf, spec := os.Getenv("VERIF_PERM_LOG"), os.Getenv("VERIF_PERM")
+	if logf == "" && spec == "" {
+		return
+	}
+	dev := map[int]int{}
+	for _, part := range strings.Split(spec, ",") {
+		kv := strings.SplitN(part, ":", 2)
+		if len(kv) == 2 {
+			k, e1 := strconv.Atoi(kv[0])
+			p, e2 := strconv.Atoi(kv[1])
+			if e1 == nil && e2 == nil {
+				dev[k] = p
+			}
+		}
+	}
+	call := 0
+	PermHook = func(n int) []int {
+		k := call
+		call++
+		if logf != "" {
+			if f, err := os.OpenFile(logf, os.O_APPEND|os.O_CREATE|os.O_WRONLY, 0o644); err == nil {
+				fmt.Fprintf(f, "%d\n", n)
+				f.Close()
+			}
+		}
+		p, ok := dev[k]
+		if !ok || n < 2 {
+			return nil
+		}
+		fam := PermFamily(n)
+		if p < 0 || p >= len(fam) {
+			fmt.Fprintf(os.Stderr, "VERIF_PERM: permutation %d out of range at call %d (n=%d)\n", p, k, n)
+			os.Exit(3)
+		}
+		return fam[p]
+	}
+}
+
+// PermFamily returns the permutations explored for a map with n keys: all n!
+// for n <= 4; for larger maps the identity, the reversal, every rotation and
+// every adjacent transposition. Element 0 is the identity.
+func PermFamily(n int) [][]int {
+	if n <= 4 {
+		out := make([][]int, 0, factorial(n))
+		for k := 0; k < factorial(n); k++ {
+			out = append(out, nthPerm(n, k))
+		}
+		return out
+	}
+	id := make([]int, n)
+	for i := range id {
+		id[i] = i
+	}
+	out := [][]int{id}
+	rev := make([]int, n)
+	for i := range rev {
+		rev[i] = n - 1 - i
+	}
+	out = append(out, rev)
+	for r := 1; r < n; r++ {
+		p := make([]int, n)
+		for i := range p {
+			p[i] = (i + r) % n
+		}
+		out = append(out, p)
+	}
+	for i := 0; i+1 < n; i++ {
+		p := append([]int{}, id...)
+		p[i], p[i+1] = p[i+1], p[i]
+		out = append(out, p)
+	}
+	return out
 }
